@@ -11,3 +11,6 @@ def run(ctx, rep):
     from ..rules import more
     more.rule_preset_joined(mod, rep)
     more.rule_snode_continue(mod, rep)
+    from ..rules import more3
+    more3.rule_threshold_forward(mod, rep)
+    more3.rule_etree_mustwrite(mod, rep)
